@@ -40,6 +40,8 @@ var (
 	ErrMessageTooLong = errors.New("message is too long")
 
 	ErrUnsupportedCompressor = errors.New("unsupported compressor")
+	// ErrInvalidFrame is returned when the section lengths of a frame overrun the frame.
+	ErrInvalidFrame = errors.New("invalid message: section length exceeds frame length")
 )
 
 const (
@@ -380,9 +382,12 @@ func decodeMetadata(l uint32, data []byte) (map[string]string, error) {
 	for n < l {
 		// parse one key and value
 		// key
+		if l-n < 4 {
+			return m, ErrMetaKVMissing
+		}
 		sl := binary.BigEndian.Uint32(data[n : n+4])
 		n = n + 4
-		if n+sl > l-4 {
+		if sl > l-n || l-n-sl < 4 {
 			return m, ErrMetaKVMissing
 		}
 		k := string(data[n : n+sl])
@@ -391,7 +396,7 @@ func decodeMetadata(l uint32, data []byte) (map[string]string, error) {
 		// value
 		sl = binary.BigEndian.Uint32(data[n : n+4])
 		n = n + 4
-		if n+sl > l {
+		if sl > l-n {
 			return m, ErrMetaKVMissing
 		}
 		v := string(data[n : n+sl])
@@ -413,18 +418,18 @@ func Read(r io.Reader) (*Message, error) {
 }
 
 // Decode decodes a message from reader.
-func (m *Message) Decode(r io.Reader) error {
+func (m *Message) Decode(r io.Reader) (err error) {
 	defer func() {
-		if err := recover(); err != nil {
+		if e := recover(); e != nil {
 			var errStack = make([]byte, 1024)
 			n := runtime.Stack(errStack, true)
-			log.Errorf("panic in message decode: %v, stack: %s", err, errStack[:n])
-
+			log.Errorf("panic in message decode: %v, stack: %s", e, errStack[:n])
+			err = fmt.Errorf("invalid message: %v", e)
 		}
 	}()
 
 	// parse header
-	_, err := io.ReadFull(r, m.Header[:1])
+	_, err = io.ReadFull(r, m.Header[:1])
 	if err != nil {
 		return err
 	}
@@ -462,38 +467,55 @@ func (m *Message) Decode(r io.Reader) error {
 	}
 
 	n := 0
+	// section returns the next length-prefixed section; it must lie inside the frame body.
+	section := func() ([]byte, error) {
+		if len(data)-n < 4 {
+			return nil, ErrInvalidFrame
+		}
+		sl := binary.BigEndian.Uint32(data[n : n+4])
+		n = n + 4
+		if uint64(sl) > uint64(len(data)-n) {
+			return nil, ErrInvalidFrame
+		}
+		sec := data[n : n+int(sl)]
+		n = n + int(sl)
+		return sec, nil
+	}
+
 	// parse servicePath
-	l = binary.BigEndian.Uint32(data[n:4])
-	n = n + 4
-	nEnd := n + int(l)
-	m.ServicePath = util.SliceByteToString(data[n:nEnd])
-	n = nEnd
+	sec, err := section()
+	if err != nil {
+		return err
+	}
+	m.ServicePath = util.SliceByteToString(sec)
 
 	// parse serviceMethod
-	l = binary.BigEndian.Uint32(data[n : n+4])
-	n = n + 4
-	nEnd = n + int(l)
-	m.ServiceMethod = util.SliceByteToString(data[n:nEnd])
-	n = nEnd
+	sec, err = section()
+	if err != nil {
+		return err
+	}
+	m.ServiceMethod = util.SliceByteToString(sec)
 
 	// parse meta
-	l = binary.BigEndian.Uint32(data[n : n+4])
-	n = n + 4
-	nEnd = n + int(l)
-
-	if l > 0 {
-		m.Metadata, err = decodeMetadata(l, data[n:nEnd])
+	sec, err = section()
+	if err != nil {
+		return err
+	}
+	if len(sec) > 0 {
+		m.Metadata, err = decodeMetadata(uint32(len(sec)), sec)
 		if err != nil {
 			return err
 		}
+	} else {
+		m.Metadata = nil
 	}
-	n = nEnd
 
 	// parse payload
-	l = binary.BigEndian.Uint32(data[n : n+4])
-	_ = l
-	n = n + 4
-	m.Payload = data[n:]
+	sec, err = section()
+	if err != nil {
+		return err
+	}
+	m.Payload = sec
 
 	if m.CompressType() != None {
 		compressor := Compressors[m.CompressType()]
